@@ -143,17 +143,20 @@ const (
 	shProcLong       = "proc-long-output"
 	shProcNil        = "proc-nil-entry"
 	shProcNilForever = "proc-nil-forever"
-	shProcErrorNil   = "proc-error-nil"
-	shProcSplit      = "proc-split"
-	shProcFilter     = "proc-filter"
-	shProcError      = "proc-error"
-	shProcMulti0     = "proc-multi0"
-	shProcMulti1     = "proc-multi1"
-	shProcChangePos  = "proc-changepos"
-	shProcEmptyPos   = "proc-emptypos"
-	shCondShort      = "proc-condition-short-output"      // only in TestC09ConditionalInWorker
-	shSplitEmptyPos  = "proc-split-of-empty-position"     // a split result for a record the source gave an empty position
-	shSplitDupPos    = "proc-split-of-duplicate-position" // a split result for a record whose source position another record of the batch carries too
+	// a never-answered record got a result after all: a conditional RunnableProcessor replaces a
+	// long plugin output by one ErrorRecord, which overrides the plugin's nil
+	shNilForeverOverridden = "proc-nil-forever-overridden"
+	shProcErrorNil         = "proc-error-nil"
+	shProcSplit            = "proc-split"
+	shProcFilter           = "proc-filter"
+	shProcError            = "proc-error"
+	shProcMulti0           = "proc-multi0"
+	shProcMulti1           = "proc-multi1"
+	shProcChangePos        = "proc-changepos"
+	shProcEmptyPos         = "proc-emptypos"
+	shCondShort            = "proc-condition-short-output"      // only in TestC09ConditionalInWorker
+	shSplitEmptyPos        = "proc-split-of-empty-position"     // a split result for a record the source gave an empty position
+	shSplitDupPos          = "proc-split-of-duplicate-position" // a split result for a record whose source position another record of the batch carries too
 
 	shSrcEmptyPos   = "src-empty-position"
 	shSrcDupPos     = "src-duplicate-position"
@@ -180,7 +183,7 @@ var connShapes = []string{shAckPartial, shAckNack, shAckWrongPos, shAckSurplus, 
 
 func allShapes() []string {
 	out := []string{shNone, shProcZero, shProcShort, shProcLong, shProcNil, shProcNilForever, shProcErrorNil, shProcSplit,
-		shProcFilter, shProcError, shProcMulti0, shProcMulti1, shProcChangePos, shProcEmptyPos, shCondShort, shSplitEmptyPos, shSplitDupPos,
+		shProcFilter, shProcError, shProcMulti0, shProcMulti1, shProcChangePos, shProcEmptyPos, shCondShort, shSplitEmptyPos, shSplitDupPos, shNilForeverOverridden,
 		shSrcEmptyPos, shSrcDupPos, shSrcEmptyBatch, shErrProcOpen, shErrProcClose}
 	for _, role := range []string{"src", "dst", "dlq"} {
 		for _, s := range connShapes {
@@ -193,7 +196,7 @@ func allShapes() []string {
 // benign shapes: the engine documents a handling that keeps the pipeline running
 var benignShapes = map[string]bool{
 	shProcSplit: true, shProcFilter: true, shProcError: true, shProcMulti0: true, shProcMulti1: true,
-	shProcChangePos: true, shProcEmptyPos: true, shSrcEmptyBatch: true,
+	shProcChangePos: true, shProcEmptyPos: true, shSrcEmptyBatch: true, shNilForeverOverridden: true,
 	"dst-" + shAckPartial: true, "dst-" + shAckNack: true, "dlq-" + shAckPartial: true,
 }
 
@@ -729,6 +732,9 @@ func (r *recProc) Process(ctx context.Context, recs []opencdc.Record) []sdk.Proc
 		kinds[j] = kindOfResult(o)
 		if j >= len(recs) {
 			continue
+		}
+		if o != nil && w.firedSet[shProcNilForever] && r.plugin.nilForever(recs[j]) {
+			w.fireLocked(shNilForeverOverridden)
 		}
 		switch x := o.(type) {
 		case nil:
